@@ -280,6 +280,9 @@ func stdErrClass(err error) string {
 	if err != nil && strings.Contains(err.Error(), "unknown field") {
 		return "unknown-field"
 	}
+	if err != nil && strings.Contains(err.Error(), "invalid use of ,string struct tag") {
+		return "string-tag-payload"
+	}
 	return "other"
 }
 
